@@ -13,6 +13,7 @@
   `determinism` stream on the real code only.
 -/
 import GtModel.Gen.SetSites
+import GtModel.Gen.NondetSites
 
 namespace GtModel.C07
 
@@ -44,5 +45,32 @@ example : ¬ (("graphtage.py", "_child_edits", "for", "unshared_kvps") ∈ revie
 -- [audit] non-vacuity / triviality: the hand-kept allow-list is literally the generated table, so the theorem
 -- is `xs ⊆ xs`; it says nothing about outputs, hash seeds or input mutation (it is a source lint tripwire)
 example : Gen.setSites = reviewed := by decide
+
+/-- reviewed sources of run-to-run variation or hidden state other than hash order (regenerated table
+    `Gen.nondetSites`: wall clock, randomness, uninitialised memory, environment, `id()`, interpreter-global
+    settings, `global` statements).  The package currently uses NO clock, NO randomness, NO uninitialised memory and
+    NO environment variable; the `id()` uses are identity equality / identity hashing (never an ordering that reaches
+    the output, except the documented tie-break of `BoundedComparator.__lt__`, which `bounds.sort` alone uses and no
+    diff path calls), and the one `global` is the initialise-once flag of the colorama fix. -/
+def reviewedNondet : List (String × String × String × String) := [
+  ("global-statement", "printer.py", "_init_colorama", "_COLORAMA_INITIALIZED"),
+  ("id", "bounds.py", "__lt__", "id(other)"),
+  ("id", "bounds.py", "__lt__", "id(self)"),
+  ("id", "builder.py", "__hash__", "id(self.object)"),
+  ("id", "fibonacci.py", "__eq__", "id(other)"),
+  ("id", "fibonacci.py", "__eq__", "id(self)"),
+  ("id", "fibonacci.py", "__init__", "id(DefaultKey)"),
+  ("id", "fibonacci.py", "__init__", "id(key)"),
+  ("id", "object_set.py", "__eq__", "id(other.obj)"),
+  ("id", "object_set.py", "__eq__", "id(self.obj)"),
+  ("id", "object_set.py", "__hash__", "id(self.obj)")
+]
+
+/-- tripwire: a new use of the clock, of randomness, of `np.empty`, of the environment, of `id()`, of
+    `sys.setrecursionlimit` or of a `global` statement anywhere in the package breaks this obligation; the check then
+    searches for a failing input with the determinism stream and otherwise reports no-failing-input-found -/
+theorem nondet_sites_reviewed : ∀ s ∈ Gen.nondetSites, s ∈ reviewedNondet := by decide
+
+example : ¬ (("clock", "bounds.py", "make_distinct", "time.monotonic") ∈ reviewedNondet) := by decide
 
 end GtModel.C07
